@@ -11,6 +11,7 @@ CONSTANTS
   FlagsInModel = FALSE
   Responder = "adversary"
   ClientDesign = "legacy"
+  SentSpace = "configured"
 INIT Init
 NEXT Next
 INVARIANTS TypeOK ClientSafe
